@@ -1,5 +1,6 @@
 import VibeProof.Model.Proto
 import VibeProof.Model.BinCodec
+import VibeProof.Model.BinTypes
 /-
 Protocol glue for the C18 / C20 drivers: s-expressions <-> BinCodec values / outcomes, and the
 field layout of a parsed file (for structure-aware mutation).  Not part of any theorem.
@@ -64,13 +65,21 @@ def encErr : Err → Sx
   | .duplicateName => .atom "duplicatename"
   | .unsupportedWhen => .atom "unsupportedwhen"
 
+/-- the model's `parse_data_type` verdict on a catalog type text: `none`, a canonical type name,
+    or `?` when the text is not ASCII (Rust upper-cases with Unicode rules) -/
+def typeCanon (t : Bytes) : String :=
+  if t.any (fun b => b ≥ 0x80) then "?" else
+  match BinTypes.parseDataType (t.map (fun b => Char.ofNat b.toNat)) with
+  | none => "none"
+  | some d => d.canon
+
 def maxLedger (l : List Nat) : Nat := l.foldl max 0
 
 def encCatalog (c : Catalog) : List Sx :=
   [ .list (.atom "schemas" :: c.schemas.map hx),
     .list (.atom "roles" :: c.roles.map hx),
     .list (.atom "tables" :: c.tables.map (fun t =>
-      .list (hx t.name :: t.cols.map (fun c => .list [hx c.name, hx c.typeStr, sxBool c.nullable])))),
+      .list (hx t.name :: t.cols.map (fun c => .list [hx c.name, hx c.typeStr, sxBool c.nullable, .atom (typeCanon c.typeStr)])))),
     .list (.atom "indexes" :: c.indexes.map (fun i =>
       .list (hx i.name :: hx i.table :: sxBool i.unique ::
         i.cols.map (fun c => .list [hx c.name, sxBool c.desc])))),
@@ -105,7 +114,7 @@ def fFile (f : FileContent) : List (String × Bytes) :=
   [("magic", magicBytes), ("version", [UInt8.ofNat Generated.binVersion]), ("body", [0]),
    ("body", List.replicate Generated.binReservedLen 0)]
   ++ fCounted fStr f.catalog.schemas ++ fCounted fStr f.catalog.roles
-  ++ fCounted (fun t => fStr t.name ++ fCounted (fun c => fStr c.name ++ fStr c.typeStr ++ [("flag", wbool c.nullable)]) t.cols) f.catalog.tables
+  ++ fCounted (fun t => fStr t.name ++ fCounted (fun c => fStr c.name ++ [("typelen", leBytes 4 c.typeStr.length), ("type", c.typeStr)] ++ [("flag", wbool c.nullable)]) t.cols) f.catalog.tables
   ++ fCounted (fun i => fStr i.name ++ fStr i.table ++ [("flag", wbool i.unique)]
         ++ fCounted (fun c => fStr c.name ++ [("flag", [if c.desc then 1 else 0])]) i.cols) f.catalog.indexes
   ++ fCounted fTrig f.catalog.triggers
@@ -154,6 +163,10 @@ def handle : List Sx → Sx
         if bytes ++ rest == b then .list (.atom "layout" :: layout fs)
         else .atom "layout-mismatch"
       | .error e => .list [.atom "err", encErr e]
+    | none => .atom "bad-request"
+  | [.atom "parsetype", .atom h] =>
+    match unhx h with
+    | some b => .list [.atom "type", .atom (typeCanon b)]
     | none => .atom "bad-request"
   | [.atom "oldstring", .atom h] =>
     match unhx h with
